@@ -248,6 +248,19 @@ class CFG(object):
     exits = exits or [self.exit]
     r = self.reachable(a, avoid=B, exc=exc)
     return not any(e in r for e in exits)
+  def exc_targets (self, n):
+    return [m for m, l in n.succ if l == 'exc']
+  def raises_out (self, n):
+    """can an exception raised *by node n itself* leave the function?
+    (handlers that catch it are assumed to complete; what the handler bodies
+    do is a separate question)"""
+    for t in self.exc_targets(n):
+      if t is self.raise_exit: return True
+      if t.kind == 'join' and t.label == 'finally-exc':
+        if self.raise_exit in self.reachable(t): return True
+    return False
+  def handlers_for (self, n):
+    return [t for t in self.exc_targets(n) if t.kind == 'handler']
   def guards (self, n, exc=True):
     """[(test_ast, polarity, branch_node)] for branch nodes dominating n"""
     out = []
